@@ -742,6 +742,8 @@ class P(Prop):
         (MA, "TV.C02.median_rank_of_noNaN", "T14 hypothesis: on a non-empty vector without NaN every rank falls on a number"),
         (MA, "TV.C02.order_statistic_unique", "the value of rank k of a list is unique (so T14 / T14' determine MEDIAN / MAD)"),
         (MA, "TV.C02.aggregate_mad", "T14': MAD as coded (NaN skipped, absolute values, central rank N//2 since fix 56ef03e resp. the mean of ranks N/2-1, N/2) is the median of |x| over the non-NaN observations"),
+        (MA, "TV.C02.expression_aggregate_value", "T13/T14 inside an expression: the tree semantics of f{a} for an aggregate f is the constant vector of the value the aggregate returns on the column of a"),
+        (MA, "TV.C02.operate_aggregate_value", "... and Track.operate('f{a}') from the source string returns that value at every observation, the track unchanged (with T13: operate('SUM{a}') is the sum of the non-NaN values of a)"),
         (MA, "TV.C02.median_index_arithmetic", "T14'': for even N >= 2 Python's (int)(N/2 - 1) and (int)(N/2) (true division, truncation) are the integer ranks N/2-1 and N/2 of the model"),
     ]
     partial = []
